@@ -37,6 +37,32 @@ class SrcBaseError(BaseException):
     """same, but not an Exception subclass"""
 
 
+class SrcRuntimeError(RuntimeError):
+    """a RuntimeError subclass raised by the source (defensive `except RuntimeError` must not eat it)"""
+
+
+class SrcOSError(OSError):
+    pass
+
+
+class SrcLookupError(KeyError):
+    pass
+
+
+def _exc_classes():
+    import queue
+    # index = case['ekind'];  0/1 as before, then classes that defensive handlers in a bridge
+    # typically catch for their OWN purposes (closed loop, empty queue, timeouts, invalid state)
+    return [SrcError, SrcBaseError, SrcRuntimeError, NotImplementedError, RecursionError, RuntimeError,
+            SrcOSError, TimeoutError, SrcLookupError, ValueError, queue.Empty, asyncio.InvalidStateError,
+            AttributeError, TypeError,
+            # the exact classes asyncio.wrap_future re-instantiates (futures._convert_future_exc; 7 is one too)
+            G.cf.CancelledError, G.cf.InvalidStateError]
+
+
+NEKINDS = 16
+
+
 class ElemError(Exception):
     """an exception *instance* used as an ordinary element"""
 
@@ -288,7 +314,7 @@ class Run:
         self.fail = case.get('fail')
         self.dur = list(case.get('dur') or [])
         self.values = list(range(len(self.xs))) if self.kind == 'range' else make_values()
-        self.exc = (SrcBaseError if case.get('ekind') else SrcError)('source failure')
+        self.exc = _exc_classes()[int(case.get('ekind') or 0) % NEKINDS]('source failure')
         self.consumed = []
         self.outcome = None
         self.finished = None          # snapshot taken when the consumer's iteration ended
